@@ -187,6 +187,7 @@ def run_c17(res, tier, seed):
                 if sorted(got) != exp:
                     res.add_violation("C17/package-graph", f"assemble_graph gives {sorted(got)}, the layout is {exp}", {"request": r, "impl": a, "expected": exp})
         res.cov["distinct_nontrivial"] = multi
+        run_imports(res, tier, seed)
         # end-to-end through the real binary on a few trees
         e2e = trees[: (6 if tier == "quick" else 60)]
         lsp.build_glas()
@@ -206,6 +207,81 @@ def run_c17(res, tier, seed):
                        "graph with locality and direct dependencies; model vs implementation vs the layout by construction. non-trivial = tree "
                        "with at least two packages")
     res.cov["samples"] += [{"request": reqs[i], "impl": io[i] if i < len(io) else None} for i in (0, 1)]
+
+
+def run_imports(res, tier, seed):
+    """M-imports vs `Package::visible_modules`: multi-package workspaces in the analysis database (package graph with
+    direct-dependency lists, one source root per package, module names shared between packages), every module of every
+    package imports every module name of the pool and calls its `f`; go-to-definition tells which file the import reached"""
+    from p_ide import run_workspaces, parse_target, FilesOnly
+    rng = random.Random(seed * 7 + 17)
+    pool = ["util", "a", "a/b", "x/y/z", "core"]
+    n_ws = 60 if tier == "quick" else 1200
+    batches, metas = [], []
+    for _ in range(n_ws):
+        npk = rng.randrange(2, 6)
+        pkgs = []       # (name, deps, [(module, file index)])
+        files, roots = [], []
+        for k in range(npk):
+            mods = rng.sample(pool, rng.randrange(1, 4))
+            deps = [d for d in range(npk) if d != k and rng.random() < 0.45]
+            rng.shuffle(deps)
+            entries, idxs = [], []
+            for m in mods:
+                al = "m_" + m.replace("/", "_")
+                body = "".join(f"import {q} as m_{q.replace('/', '_')}\n" for q in pool if q != m)
+                body += f"pub fn f() {{\n  {k}\n}}\npub fn probe() {{\n" + "".join(f"  m_{q.replace('/', '_')}.f()\n" for q in pool if q != m) + "  1\n}\n"
+                files.append({"path": f"/w/pk{k}/src/{m}.gleam", "text": body})
+                entries.append((m, len(files) - 1)); idxs.append(len(files) - 1)
+            files.append({"path": f"/w/pk{k}/gleam.toml", "text": f'name = "pk{k}"\n'})
+            idxs.append(len(files) - 1)
+            pkgs.append((f"pk{k}", deps, entries, len(files) - 1))
+            roots.append((f"/w/pk{k}", idxs))
+        ws = FilesOnly(files)
+        ws.roots = roots
+        ws.pkgs = [(n, toml, 1 if k == 0 else 0, deps) for k, (n, deps, _, toml) in enumerate(pkgs)]
+        qs, meta = [], []
+        for k, (n, deps, entries, toml) in enumerate(pkgs):
+            for (m, fi) in entries:
+                t = files[fi]["text"]
+                for q in pool:
+                    if q == m:
+                        continue
+                    al = "m_" + q.replace("/", "_")
+                    off = t.index(f"  {al}.f()") + 2 + len(al) + 1
+                    qs.append(f"goto\t{fi}\t{off}")
+                    meta.append((k, q, fi))
+        batches.append((ws, qs)); metas.append((pkgs, meta, files))
+    answers = run_workspaces(batches)
+    graph_specs, mreqs = [], []
+    for (pkgs, meta, files) in metas:
+        spec = ";".join("+".join(str(d) for d in deps) + "|" + ",".join(f"{m}={fi}" for (m, fi) in entries) for (n, deps, entries, toml) in pkgs)
+        for (k, q, fi) in meta:
+            mreqs.append(f"imports\t{spec}\t{k}\t{q}")
+    mo, rc = common.run_lines(common.DRIVER_BIN, mreqs)
+    if len(mo) != len(mreqs):
+        raise Broken("Lean driver died", "during imports commands")
+    j = 0
+    shared = 0
+    for (pkgs, meta, files), ans in zip(metas, answers):
+        for (k, q, fi), a in zip(meta, ans):
+            model = mo[j]; rq = mreqs[j]; j += 1
+            res.cov["evaluations"] += 1
+            t = parse_target(a)
+            got = "none" if t is None else f"some {t[0]}"
+            if got != model:
+                res.disagreements.append((rq + f" (asked in file {fi})", got, model))
+            # the layout by construction: candidates = the importing package's own module of that name, else those of its direct dependencies
+            own = [f for (m, f) in pkgs[k][2] if m == q]
+            cands = own if own else [f for d in pkgs[k][1] for (m, f) in pkgs[d][2] if m == q]
+            if len({f for d in pkgs[k][1] for (m, f) in pkgs[d][2] if m == q}) > 1:
+                shared += 1
+            if (t is None) != (not cands) or (t is not None and t[0] not in cands):
+                res.add_violation("C17/import-resolution", f"`import {q}` in package pk{k} (dependencies {['pk%d' % d for d in pkgs[k][1]]}) reaches "
+                                  f"{files[t[0]]['path'] if t else None}; modules of that name in the package or its direct dependencies: {[files[f]['path'] for f in cands]}",
+                                  {"files": files, "packages": [{"name": n, "deps": deps, "modules": entries} for (n, deps, entries, toml) in pkgs], "query": f"goto in file {fi}", "impl": a[:200]})
+    res.cov["import_resolutions_checked"] = j
+    res.cov["import_resolutions_with_several_candidate_dependencies"] = shared
 
 
 def run_e2e_manifest(res, tb, rng, prop):
@@ -480,7 +556,7 @@ def run_e2e(res, tb, pkgs):
         c.close()
 
 
-PROOF_MODULES = {"C17": ["Glas.Props.C17"]}
+PROOF_MODULES = {"C17": ["Glas.Props.C17", "Glas.Props.C17Imports"]}
 
 
 def run(prop, res, tier, seed):
